@@ -87,6 +87,9 @@ static void case_reset(void)
   srv_tx_hook                                  = mon_net_tx;
   srv_cookie_hook                              = NULL;
   srv_frame_hook                               = NULL;
+  srv_built_hook                               = NULL;
+  ck_epoch                                     = 0;
+  app_srv_ever_mask                            = 0;
   mon_server_state_hook                        = NULL;
   mon_tok_done_hook                            = NULL;
   mon_enable_idx = mon_enable_fd = mon_enable_net = mon_enable_timer = 1;
